@@ -66,7 +66,7 @@ func denseRoot(depth int, leaves map[uint64]*big.Int) *big.Int {
 
 func runC18(o *cli.Opts, run *evid.Run) {
 	run.Rule("one case = one Update() step of a PRNG history on poseidon_tree.NewTree(d), d=1..32; " +
-		"index modes: dense prefix, repeated, first/last leaf, sibling pairs, sparse far-apart; values: random, 0 (delete), rewrite same; " +
+		"index modes: dense prefix, repeated, first/last leaf, sibling pairs, sparse far-apart, moving an identity to its sibling slot (delete + re-register); values: random, 0 (delete), rewrite same, values used before, small multi-byte values; " +
 		"non-trivial = step whose (depth,index,value,previous value) signature is new; oracle = reference sparse tree + from-scratch recomputation from the leaf map")
 	run.Assume("iden3 go-iden3-crypto Poseidon is the reference hash", "indices stay inside the tree (0 <= i < 2^depth)")
 	histories := o.Pick(6, 60)
@@ -113,10 +113,32 @@ func c18History(run *evid.Run, seed int64, key string, d, h, steps int) {
 		run.Violate(key+"/step=-1", fmt.Sprintf("empty tree of depth %d has root %s, reference %s", d, r0.Text(16), rt.Root().Text(16)), nil)
 	}
 	var trace []string
+	type planned struct {
+		idx uint64
+		val *big.Int
+	}
+	var pending []planned // multi-step operations (e.g. "move an identity to the neighbouring slot")
+	var written []planned
 	for s := 0; s < steps; s++ {
 		var idx uint64
 		mode := rng.Intn(8)
+		if len(pending) == 0 && len(written) > 0 && rng.Intn(6) == 0 {
+			// move: delete an earlier identity and register the same value in the sibling slot (or elsewhere)
+			w := written[rng.Intn(len(written))]
+			to := w.idx ^ 1
+			if rng.Intn(3) == 0 {
+				to = rng.Uint64() % size
+			}
+			pending = append(pending, planned{w.idx, big.NewInt(0)}, planned{to % size, w.val})
+		}
+		var forced *big.Int
+		if len(pending) > 0 {
+			idx, forced = pending[0].idx, pending[0].val
+			pending = pending[1:]
+			mode = -1
+		}
 		switch {
+		case mode == -1:
 		case mode == 0 && len(touched) > 0: // repeated index
 			idx = touched[rng.Intn(len(touched))]
 		case mode == 1: // first / last leaf
@@ -139,7 +161,13 @@ func c18History(run *evid.Run, seed int64, key string, d, h, steps int) {
 		}
 		prev := rt.Get(idx)
 		var val *big.Int
-		switch v := rng.Intn(10); {
+		switch v := rng.Intn(12); {
+		case forced != nil:
+			val = new(big.Int).Set(forced)
+		case v == 10 && len(written) > 0: // a value used before (possibly in another slot)
+			val = new(big.Int).Set(written[rng.Intn(len(written))].val)
+		case v == 11: // small multi-byte values
+			val = big.NewInt(int64(1 + rng.Intn(1<<uint(8+rng.Intn(17)))))
 		case v == 0:
 			val = big.NewInt(0)
 		case v == 1:
@@ -154,6 +182,9 @@ func c18History(run *evid.Run, seed int64, key string, d, h, steps int) {
 		rt.Set(idx, val)
 		leaves[idx] = new(big.Int).Set(val)
 		touched = append(touched, idx)
+		if val.Sign() != 0 && len(written) < 64 {
+			written = append(written, planned{idx, new(big.Int).Set(val)})
+		}
 		step := fmt.Sprintf("%s/step=%d", key, s)
 		desc := fmt.Sprintf("i=%d v=%s prev=%s", idx, val.Text(16), prev.Text(16))
 		if len(trace) < 6 {
